@@ -234,4 +234,37 @@ theorem step_measure (scan : List B → Option String) (p : Parser) (c : B)
         simp only [mu, hc, pushBuf, pushstate, List.drop_one, List.tail_cons, List.length_cons]
         split <;> omega
 
+theorem loop_total (scan : List B → Option String) (c : B) :
+    ∀ fuel p, mu p c < fuel → (consumeLoop scan fuel p c).isSome = true := by
+  intro fuel
+  induction fuel with
+  | zero => intro p h; omega
+  | succ n ih =>
+    intro p h
+    unfold consumeLoop
+    by_cases he : p.error.isSome = true
+    · simp [he]
+    · simp only [he]
+      cases hstep : step scan p c with
+      | mk p' consumed =>
+        cases consumed with
+        | true => simp
+        | false =>
+          have hm := step_measure scan p c (by rw [hstep])
+          rw [hstep] at hm
+          simp only [Bool.false_eq_true, if_false]
+          rcases hm with he' | hlt
+          · have h1 : 1 ≤ mu p c := mu_pos p c
+            cases n with
+            | zero => omega
+            | succ k => unfold consumeLoop; simp [he']
+          · exact ih p' (by simp only at hlt; omega)
+
+theorem consumeLoop_total (scan : List B → Option String) (p : Parser) (c : B) :
+    (consumeLoop scan (loopFuel p) p c).isSome = true := by
+  apply loop_total
+  have := mu_le p c
+  unfold loopFuel
+  omega
+
 end JanetModel.Parse
